@@ -112,6 +112,15 @@ func CopyFunc(fn func(out, in interface{}) error) Cloner {
 // then copy the input to the newly created value.
 func CodecCloner(codec encoding.Codec) Cloner {
 	return CopyFunc(func(out, in interface{}) error {
+		if pmIn, ok := in.(proto.Message); ok {
+			if pmOut, ok := out.(proto.Message); ok {
+				// the wire format is untyped: unmarshalling into a message
+				// of another type would "succeed" with garbage
+				if nIn, nOut := proto.MessageName(pmIn), proto.MessageName(pmOut); nIn != nOut {
+					return fmt.Errorf("cannot copy a %s into a %s", nIn, nOut)
+				}
+			}
+		}
 		if b, err := codec.Marshal(in); err != nil {
 			return err
 		} else if err := codec.Unmarshal(b, out); err != nil {
